@@ -15,6 +15,7 @@ from tsg.facts import strip, txt, callee, call_args, call_object, walk, const_va
 from tsg.flow import is_reachable
 from tsg.peval import PEval
 from tsg.sym import NotClosedForm
+from tsg.build import AnalysisBroken
 
 RL = "TasGrid::RuleLocal::"
 HPP = "SparseGrids/tsgRuleLocalPolynomial.hpp"
@@ -334,3 +335,115 @@ def walk_rule(chk, db, rule_id, npts=None):
             chk.ob(rule_id, "van_matrix<%s>" % r, "inline ancestor walk @%d == getParent<%s>, explicit columns == stop set" % (w.get("l", 0), r), not problems, f.loc(w),
                    "; ".join(problems[:3]) if problems else "rows/ancestors up to %d agree" % (npts - 1), "the same hierarchy that computeDAGup uses")
     return n_ok
+
+
+def cell_rule(chk, db, rule_id, npts=None):
+    """piecewise-constant rule: row by row, the ancestors the inline walk of van_matrix<pwc> collects are exactly the ancestors
+    (closure of getParent<pwc>, the root excluded: it is pushed explicitly) whose basis function is non-zero at the node of the row.
+    The walk (a while or a for loop) is executed concretely for the rows below `npts`; the oracle is evalRaw<pwc> at getNode<pwc>(row)."""
+    from tsg.tier import pick
+    npts = npts or pick(122, 365)
+    pe = PEval(db)
+
+    def one(name):
+        return {f.d.get("targs", "").rsplit("::", 1)[-1]: f for f in db.fns(RL + name, [HPP]) if f.d.get("targs")}.get("pwc")
+    f, ER, GN, GP = one("van_matrix"), one("evalRaw"), one("getNode"), one("getParent")
+    if f is None or ER is None or GN is None or GP is None:
+        raise AnalysisBroken("%s: van_matrix / evalRaw / getNode / getParent of the piecewise-constant rule not found" % rule_id)
+
+    def is_push(n):
+        return n.get("k") == "CXXMemberCallExpr" and (callee(n) or "").endswith("::push_back") and txt(call_object(n) or {}).strip() == "ancestors"
+    loops = [n for n in f.walk() if n.get("k") in ("WhileStmt", "ForStmt") and is_reachable(f, strip(n.get("cond")) or n)
+             and any(is_push(q) for q in walk(n.get("body") or {}))]
+    # the walk is the innermost loop with a push, the row loop the loop around it
+    walks = [w for w in loops if not any(q is not w and q in loops for q in walk(w.get("body") or {}))]
+    n = 0
+    cell_rule.other_shape = 0
+    for w in walks:
+        rowloop = next((a for a in f.ancestors(w) if a.get("k") == "ForStmt"), None)
+        rowvar = [d for d in walk((rowloop or {}).get("init") or {}) if d.get("k") == "VarDecl"]
+        if rowloop is None or not rowvar or not rowvar[0].get("c") or const_val(strip(rowvar[0]["c"][0])) is None:
+            raise AnalysisBroken("%s: the ancestor walk @%s is not inside a row loop that starts at a constant row" % (rule_id, w.get("l")))
+        first_row = int(const_val(strip(rowvar[0]["c"][0])))
+        body = rowloop.get("body")
+        seq = [c for c in body.get("c", []) if isinstance(c, dict)] if body.get("k") == "CompoundStmt" else [body]
+        upto = next(i for i, s0 in enumerate(seq) if s0 is w or any(q is w for q in walk(s0)))
+        problems = []
+        fuel = [0]
+
+        def run(st, env, out):
+            k = st.get("k")
+            if k == "CompoundStmt":
+                for s0 in st.get("c", []):
+                    if isinstance(s0, dict):
+                        run(s0, env, out)
+            elif k == "DeclStmt":
+                for d in st.get("c", []):
+                    if d.get("c") and d.get("t", "").replace("const", "").strip() == "int":
+                        env[d["did"]] = pe.expr(d["c"][0], env, f, 0)
+            elif k in ("BinaryOperator", "CompoundAssignOperator") and st.get("op") in ("=", "/=", "+=", "-=", "*="):
+                l = strip(st["c"][0])
+                if l.get("k") == "DeclRefExpr" and l.get("did") in env:
+                    v = pe.expr(st["c"][1], env, f, 0)
+                    cur = env[l["did"]]
+                    env[l["did"]] = v if st["op"] == "=" else sympy.floor(cur / v) if st["op"] == "/=" else cur + v if st["op"] == "+=" else cur - v if st["op"] == "-=" else cur * v
+                # writes to the output arrays (pntr[r] = ...) do not take part in the walk
+            elif k == "IfStmt":
+                t, _ = pe.cond(st["cond"], env, f, 0)
+                if t is None:
+                    raise NotClosedForm("undecided test " + txt(st["cond"])[:40])
+                br = st.get("then") if t else st.get("else")
+                if br is not None:
+                    run(br, env, out)
+            elif k in ("WhileStmt", "ForStmt"):
+                if k == "ForStmt" and st.get("init") is not None:
+                    run(st["init"], env, out)
+                while True:
+                    fuel[0] += 1
+                    if fuel[0] > 200000:
+                        raise NotClosedForm("walk does not terminate")
+                    t, _ = pe.cond(st["cond"], env, f, 0)
+                    if t is None:
+                        raise NotClosedForm("undecided loop test")
+                    if not t:
+                        break
+                    run(st["body"], env, out)
+                    if k == "ForStmt" and st.get("inc") is not None:
+                        run(st["inc"], env, out)
+            elif k == "UnaryOperator" and st.get("op") in ("++", "--"):
+                l = strip(st["c"][0])
+                env[l["did"]] = env[l["did"]] + (1 if st["op"] == "++" else -1)
+            elif is_push(st) or (k == "ExprWithCleanups" and any(is_push(q) for q in walk(st))):
+                c = st if is_push(st) else next(q for q in walk(st) if is_push(q))
+                out.append(int(pe.expr(call_args(c)[0], env, f, 0)))
+            elif k in ("CXXMemberCallExpr", "ExprWithCleanups", "NullStmt", "CXXOperatorCallExpr"):
+                pass        # clear() and appends to the output arrays
+            else:
+                raise NotClosedForm("statement %s in the walk: %s" % (k, txt(st)[:40]))
+
+        try:
+            for K in range(first_row, npts):
+                env = {rowvar[0]["did"]: sympy.Integer(K)}
+                out = []
+                for s0 in seq[:upto + 1]:
+                    run(s0, env, out)
+                x = pe.call(GN, [sympy.Integer(K)])
+                want = []
+                a = int(pe.call(GP, [sympy.Integer(K)]))
+                while a > 0:
+                    if sympy.simplify(pe.call(ER, [sympy.Integer(0), sympy.Integer(a), x])) != 0:
+                        want.append(a)
+                    a = int(pe.call(GP, [sympy.Integer(a)]))
+                if sorted(out) != sorted(want):
+                    problems.append("row %d: the walk collects the ancestors %s, the basis functions that are non-zero at its node are %s" % (K, sorted(out), sorted(want)))
+                    if len(problems) >= 3:
+                        break
+        except NotClosedForm as e:
+            raise AnalysisBroken("%s: the ancestor walk of van_matrix<pwc> @%s cannot be executed: %s" % (rule_id, w.get("l"), e))
+        n += 1
+        if w.get("k") != "WhileStmt":
+            cell_rule.other_shape += 1     # a walk walk_rule() does not recognise; executed here against the same hierarchy
+        chk.saw(f)
+        chk.ob(rule_id, "van_matrix<pwc>", "ancestors collected by the walk @%d == ancestors whose cell contains the node of the row" % w.get("l", 0), not problems, f.loc(w),
+               "; ".join(problems[:3]) if problems else "rows %d..%d agree" % (first_row, npts - 1), "entry 1.0 <=> evalRaw<pwc>(0, ancestor, getNode(row)) != 0")
+    return n
